@@ -78,7 +78,7 @@ RfcOf(op) == CASE op \in {"Up", "Down", "Open", "Close", "RTR", "RTA", "RCA", "R
                [] op \in {"CodeRej-other", "ProtoRej-other"} -> {"RXJ+"}
                [] op \in {"EchoReq", "EchoReply", "Discard"} -> {"RXR"}
                [] OTHER -> {}
-Discarded(op) == op \in {"RCA-stale", "RCN-stale", "RCJ-stale", "RCR-bad", "Short", "EchoReq-short"}
+Discarded(op) == op \in {"RCA-stale", "RCA-next", "RCN-stale", "RCJ-stale", "RCR-bad", "Short", "EchoReq-short"}
 
 Expect(s, op) ==   \* set of <<next, wire actions>> RFC 1661 allows
   IF Discarded(op) THEN {<<s, {}>>}
